@@ -576,31 +576,65 @@ fn c12_skip_varint_nodes() {
 //@   props: C12
 //@   tier: quick
 //@   kind: complete
-//@   fn: de::deserializer::DatumDeserializer::deserialize_ignored_any vs deserialize_any (nodes null, boolean, float, double, duration, fixed(3), date, timestamp-micros)
-//@   domain: every input of length 0..=13
+//@   fn: de::deserializer::DatumDeserializer::deserialize_ignored_any vs deserialize_any (nodes null, boolean, float, double)
+//@   domain: every input of length 0..=9
 //@   post: whenever reading succeeds, ignoring succeeds and consumes the same number of bytes
 #[kani::proof]
-#[kani::unwind(16)]
+#[kani::unwind(12)]
 #[kani::stub(alloc::fmt::format, stub_format)]
 fn c12_skip_fixed_size_nodes() {
 	static NU: SchemaNode<'static> = SchemaNode::Null;
 	static BO: SchemaNode<'static> = SchemaNode::Boolean;
 	static FL: SchemaNode<'static> = SchemaNode::Float;
 	static DO: SchemaNode<'static> = SchemaNode::Double;
-	static DU: SchemaNode<'static> = SchemaNode::Duration;
-	static FX: SchemaNode<'static> = fixed_node(3);
-	static DA: SchemaNode<'static> = SchemaNode::Date;
-	static TS: SchemaNode<'static> = SchemaNode::TimestampMicros;
-	let buf: [u8; 13] = kani::any();
+	let buf: [u8; 9] = kani::any();
 	let len: usize = kani::any();
-	kani::assume(len <= 13);
+	kani::assume(len <= 9);
 	let input = &buf[..len];
 	skip_equals_read!(&NU, input, len);
 	skip_equals_read!(&BO, input, len);
 	skip_equals_read!(&FL, input, len);
 	skip_equals_read!(&DO, input, len);
+}
+
+//@ harness: c12_skip_fixed_and_duration_nodes
+//@   props: C12
+//@   tier: quick
+//@   kind: complete
+//@   fn: de::deserializer::DatumDeserializer::deserialize_ignored_any vs deserialize_any (nodes duration, fixed(3))
+//@   domain: every input of length 0..=13
+//@   post: whenever reading succeeds, ignoring succeeds and consumes the same number of bytes (12 resp. 3)
+#[kani::proof]
+#[kani::unwind(16)]
+#[kani::stub(alloc::fmt::format, stub_format)]
+fn c12_skip_fixed_and_duration_nodes() {
+	static DU: SchemaNode<'static> = SchemaNode::Duration;
+	static FX: SchemaNode<'static> = fixed_node(3);
+	let buf: [u8; 13] = kani::any();
+	let len: usize = kani::any();
+	kani::assume(len <= 13);
+	let input = &buf[..len];
 	skip_equals_read!(&DU, input, len);
 	skip_equals_read!(&FX, input, len);
+}
+
+//@ harness: c12_skip_logical_varint_nodes
+//@   props: C12
+//@   tier: quick
+//@   kind: complete
+//@   fn: de::deserializer::DatumDeserializer::deserialize_ignored_any vs deserialize_any (nodes date, timestamp-micros: no dedicated skip path, fall through to reading)
+//@   domain: every input of length 0..=11
+//@   post: whenever reading succeeds, ignoring succeeds and consumes the same number of bytes
+#[kani::proof]
+#[kani::unwind(13)]
+#[kani::stub(alloc::fmt::format, stub_format)]
+fn c12_skip_logical_varint_nodes() {
+	static DA: SchemaNode<'static> = SchemaNode::Date;
+	static TS: SchemaNode<'static> = SchemaNode::TimestampMicros;
+	let buf: [u8; 11] = kani::any();
+	let len: usize = kani::any();
+	kani::assume(len <= 11);
+	let input = &buf[..len];
 	skip_equals_read!(&DA, input, len);
 	skip_equals_read!(&TS, input, len);
 }
@@ -608,9 +642,9 @@ fn c12_skip_fixed_size_nodes() {
 //@ harness: c12_skip_length_delimited_nodes
 //@   props: C12
 //@   tier: quick
-//@   kind: bounded(input length <= 5)
+//@   kind: bounded(input length <= 4)
 //@   fn: de::deserializer::DatumDeserializer::deserialize_ignored_any (string: no UTF-8 check) vs deserialize_any (nodes string, bytes, uuid)
-//@   domain: every input of length 0..=5
+//@   domain: every input of length 0..=4
 //@   post: whenever reading succeeds (valid length, valid UTF-8), ignoring succeeds and consumes the same bytes
 #[kani::proof]
 #[kani::unwind(8)]
@@ -619,9 +653,9 @@ fn c12_skip_length_delimited_nodes() {
 	static ST: SchemaNode<'static> = SchemaNode::String;
 	static BY: SchemaNode<'static> = SchemaNode::Bytes;
 	static UU: SchemaNode<'static> = SchemaNode::Uuid;
-	let buf: [u8; 5] = kani::any();
+	let buf: [u8; 4] = kani::any();
 	let len: usize = kani::any();
-	kani::assume(len <= 5);
+	kani::assume(len <= 4);
 	let input = &buf[..len];
 	skip_equals_read!(&ST, input, len);
 	skip_equals_read!(&BY, input, len);
@@ -645,50 +679,70 @@ impl<'de> Visitor<'de> for DepthProbe {
 	fn visit_some<D: Deserializer<'de>>(self, _d: D) -> Result<(), D::Error> { Ok(()) }
 }
 
-//@ harness: c04_depth_zero_rejected_at_every_descent
+macro_rules! at_zero {
+	($input:expr, $node:expr, $call:ident ( $($arg:expr),* )) => {{
+		let mut st = state_over($node, $input);
+		st.config.allowed_depth = 0;
+		let r = st.deserializer().$call($($arg,)* IgnoredAny);
+		assert!(r.is_err(), "OBL C04.depth.exhausted_budget_is_err_at_descent_site");
+		std::mem::forget(r);
+	}};
+}
+static DEPTH_ARR: SchemaNode<'static> = SchemaNode::Array(NodeRef::from_static(&N_LONG));
+static DEPTH_MAP: SchemaNode<'static> = SchemaNode::Map(NodeRef::from_static(&N_LONG));
+
+//@ harness: c04_depth_zero_array_sites
 //@   props: C04
 //@   tier: quick
 //@   kind: complete
-//@   fn: de::deserializer::DatumDeserializer::{deserialize_any, deserialize_option, deserialize_seq, deserialize_tuple, deserialize_enum, deserialize_ignored_any} descent sites
-//@   domain: depth budget 0; nodes array<long>, map<long>, union; every hint that descends; one-byte input
-//@   post: Err at every descent site when the budget is exhausted (a site that forgets `.dec()?` would return Ok / recurse)
+//@   fn: de::deserializer::DatumDeserializer::{deserialize_any, deserialize_seq, deserialize_tuple, deserialize_ignored_any} (node array<long>)
+//@   domain: depth budget 0; any first input byte
+//@   post: Err at each of the four array descent sites when the budget is exhausted (a site that forgets `.dec()?` would hand out a seq access)
 #[kani::proof]
 #[kani::unwind(6)]
 #[kani::stub(alloc::fmt::format, stub_format)]
-fn c04_depth_zero_rejected_at_every_descent() {
-	static ARR: SchemaNode<'static> = SchemaNode::Array(NodeRef::from_static(&N_LONG));
-	static MAP: SchemaNode<'static> = SchemaNode::Map(NodeRef::from_static(&N_LONG));
+fn c04_depth_zero_array_sites() {
 	let buf: [u8; 2] = kani::any();
-	kani::assume(buf[0] == 0 || buf[0] == 2); // end-of-array marker / union branch 0 or 1
 	let input = &buf[..];
-	macro_rules! at_zero {
-		($node:expr, $call:ident ( $($arg:expr),* )) => {{
-			let mut st = state_over($node, input);
-			st.config.allowed_depth = 0;
-			let r = st.deserializer().$call($($arg,)* IgnoredAny);
-			assert!(r.is_err(), "OBL C04.depth.exhausted_budget_is_err_at_descent_site");
-			std::mem::forget(r);
-		}};
-	}
-	at_zero!(&ARR, deserialize_any());
-	at_zero!(&ARR, deserialize_seq());
-	at_zero!(&ARR, deserialize_tuple(2));
-	at_zero!(&ARR, deserialize_ignored_any());
-	at_zero!(&MAP, deserialize_any());
-	at_zero!(&MAP, deserialize_map());
-	at_zero!(&MAP, deserialize_ignored_any());
-	at_zero!(&UNION_NULL_LONG, deserialize_any());
-	at_zero!(&UNION_NULL_LONG, deserialize_enum("E", &[]));
-	at_zero!(&N_LONG, deserialize_enum("E", &[]));
-	at_zero!(&N_DOUBLE, deserialize_enum("E", &[]));
-	let mut st = state_over(&UNION_NULL_LONG, input);
-	st.config.allowed_depth = 0;
-	let r = st.deserializer().deserialize_option(DepthProbe);
-	// null branch needs no descent; the long branch does
-	if buf[0] == 2 {
-		assert!(r.is_err(), "OBL C04.depth.exhausted_budget_is_err_at_option_descent");
-	}
-	std::mem::forget(r);
+	at_zero!(input, &DEPTH_ARR, deserialize_any());
+	at_zero!(input, &DEPTH_ARR, deserialize_seq());
+	at_zero!(input, &DEPTH_ARR, deserialize_tuple(2));
+	at_zero!(input, &DEPTH_ARR, deserialize_ignored_any());
+}
+
+//@ harness: c04_depth_zero_map_sites
+//@   props: C04
+//@   tier: quick
+//@   kind: complete
+//@   fn: de::deserializer::DatumDeserializer::{deserialize_any, deserialize_map, deserialize_ignored_any} (node map<long>)
+//@   domain: depth budget 0; any first input byte
+//@   post: Err at each map descent site when the budget is exhausted
+#[kani::proof]
+#[kani::unwind(6)]
+#[kani::stub(alloc::fmt::format, stub_format)]
+fn c04_depth_zero_map_sites() {
+	let buf: [u8; 2] = kani::any();
+	let input = &buf[..];
+	at_zero!(input, &DEPTH_MAP, deserialize_any());
+	at_zero!(input, &DEPTH_MAP, deserialize_map());
+	at_zero!(input, &DEPTH_MAP, deserialize_ignored_any());
+}
+
+//@ harness: c04_depth_zero_enum_access_sites
+//@   props: C04
+//@   tier: quick
+//@   kind: complete
+//@   fn: de::deserializer::DatumDeserializer::deserialize_enum (unit-variant-identifier nodes: long; type-name nodes: double)
+//@   domain: depth budget 0; any input
+//@   post: Err when the budget is exhausted (both enum-access descents)
+#[kani::proof]
+#[kani::unwind(6)]
+#[kani::stub(alloc::fmt::format, stub_format)]
+fn c04_depth_zero_enum_access_sites() {
+	let buf: [u8; 2] = kani::any();
+	let input = &buf[..];
+	at_zero!(input, &N_LONG, deserialize_enum("E", &[]));
+	at_zero!(input, &N_DOUBLE, deserialize_enum("E", &[]));
 }
 
 //@ harness: c03_de_cells_canary
